@@ -221,3 +221,38 @@ fn timers_inserted_while_expired_timers_are_still_being_dispatched_all_fire_once
     run_for(&mut el, &mut log, Duration::from_millis(60));
     assert!(log.len() >= before + 3, "removing another timer stopped the repeating one ({} -> {})", before, log.len());
 }
+
+#[test]
+fn time_spent_in_before_sleep_does_not_delay_the_timer_that_bounds_the_wait() {
+    use calloop::ping::{make_ping, PingSource};
+    use calloop::{EventIterator, EventSource, Poll, PostAction, Readiness, Token, TokenFactory};
+    struct Slow(PingSource, Duration);
+    impl EventSource for Slow {
+        type Event = ();
+        type Metadata = ();
+        type Ret = ();
+        type Error = Box<dyn std::error::Error + Sync + Send>;
+        const NEEDS_EXTRA_LIFECYCLE_EVENTS: bool = true;
+        fn process_events<F>(&mut self, r: Readiness, t: Token, cb: F) -> Result<PostAction, Self::Error> where F: FnMut((), &mut ()) { Ok(self.0.process_events(r, t, cb)?) }
+        fn register(&mut self, p: &mut Poll, f: &mut TokenFactory) -> calloop::Result<()> { self.0.register(p, f) }
+        fn reregister(&mut self, p: &mut Poll, f: &mut TokenFactory) -> calloop::Result<()> { self.0.reregister(p, f) }
+        fn unregister(&mut self, p: &mut Poll) -> calloop::Result<()> { self.0.unregister(p) }
+        fn before_sleep(&mut self) -> calloop::Result<Option<(Readiness, Token)>> { std::thread::sleep(self.1); Ok(None) }
+        fn before_handle_events(&mut self, _: EventIterator<'_>) {}
+    }
+    for (hook, timer, limit) in [(200u64, 300u64, 420u64), (300, 100, 400)] {
+        let mut el: EventLoop<'static, Log> = EventLoop::try_new().unwrap();
+        let (_p, s) = make_ping().unwrap();
+        el.handle().insert_source(Slow(s, Duration::from_millis(hook)), |_, _, _| {}).unwrap();
+        let (_d, _t) = timer_at(&el, Instant::now() + Duration::from_millis(timer));
+        let mut log = Log::default();
+        let t = Instant::now();
+        el.dispatch(None, &mut log).unwrap();
+        let e = t.elapsed();
+        assert_eq!(log.len(), 1, "the timer that bounded the wait fired in that dispatch");
+        assert!(e >= Duration::from_millis(timer.max(hook)) && e < Duration::from_millis(limit),
+            "hook {} ms, timer {} ms out: dispatch(None) took {:?} (the time spent in before_sleep was added to the wait)", hook, timer, e);
+        check_never_early(&log);
+    }
+}
+fn timer_at(el: &EventLoop<'static, Log>, deadline: Instant) -> (Dispatcher<'static, Timer, Log>, calloop::RegistrationToken) { timer(el, 1, deadline) }
